@@ -117,6 +117,16 @@ static void one_case(const std::string& cid, Toks& t) {
         std::vector<int> a = t.ints(4 * P);
         if (P != g_np) return;
         run_partition(cid, new Partition(N, M, a[4 * g_rank], a[4 * g_rank + 1], a[4 * g_rank + 2], a[4 * g_rank + 3], g_topo));
+    } else if (op == "product") {
+        // the partition of a product A*B: rows of A, columns of B (Partition(Partition* A, Partition* B))
+        int N = t.next_int(), K = t.next_int(), M = t.next_int(), P = t.next_int();
+        std::vector<int> a = t.ints(4 * P), b = t.ints(4 * P);
+        if (P != g_np) return;
+        Partition* A = new Partition(N, K, a[4 * g_rank], a[4 * g_rank + 1], a[4 * g_rank + 2], a[4 * g_rank + 3], g_topo);
+        Partition* B = new Partition(K, M, b[4 * g_rank], b[4 * g_rank + 1], b[4 * g_rank + 2], b[4 * g_rank + 3], g_topo);
+        Partition* C = new Partition(A, B);
+        dump_partition(cid, "", C);
+        delete C; delete A; delete B;
     } else if (op == "topo") {
         int nprocs = t.next_int(), PPN = t.next_int(), ord = t.next_int();
         run_topo(cid, nprocs, PPN, ord);
